@@ -388,10 +388,29 @@ def replay(pid, path):
             p = subprocess.run([wh, "exec", obj["stream"], "-work", work], input=obj["input"] + "\n", env=GOENV,
                                stdout=subprocess.PIPE, stderr=subprocess.STDOUT, text=True)
             print("implementation now:\n" + p.stdout[-3000:])
+            impl_obs, wits = None, []
+            for l in p.stdout.splitlines():
+                f = l.split("\t")
+                if len(f) == 3 and f[0] == "x0":
+                    impl_obs = f[2]
+                if len(f) == 5 and f[0] == "!W":
+                    wits.append((f[1], f[2], f[3]))
+            reproduced = None
+            known = {(k["property"], k["signature"]) for k in load_known().get("open", [])}
+            fresh = [w for w in wits if (w[0], w[1]) not in known]
+            if fresh:
+                reproduced = "oracle witness %s/%s: %s" % fresh[0]
             drv = os.path.join(ROOT, "ocaml", "_build", "driver")
             if os.path.exists(drv) and not obj["input"].startswith("#"):
                 p = subprocess.run([drv], input="r\t" + obj["input"] + "\n", stdout=subprocess.PIPE, text=True)
                 print("model:\n" + p.stdout[-3000:])
+                mf = p.stdout.rstrip("\n").split("\t")
+                if len(mf) == 2 and impl_obs is not None and mf[1] != impl_obs and not reproduced:
+                    reproduced = "model and implementation still disagree on this input"
+            if reproduced:
+                print("VIOLATION property=%s replay=%s  (reproduced on the current tree: %s)" % (pid, path, reproduced))
+                return 1
+            print("not reproduced on the current tree")
         finally:
             shutil.rmtree(work, ignore_errors=True)
     return 0
